@@ -295,8 +295,12 @@ def gen_events(rng, n=None):
 
 def gen_range(rng):
     r = rng.random()
-    if r < 0.25:
+    if r < 0.12:
         return 0, 128
+    if r < 0.2:
+        return rng.randint(1, 116), 128                # only min_note differs from its default
+    if r < 0.28:
+        return 0, rng.randint(12, 127)                 # only max_note differs from its default
     if r < 0.75:
         lo = rng.randint(0, 100)
         return lo, lo + rng.choice([12, 12, 13, 24, 36, 20])
@@ -307,21 +311,44 @@ def gen_range(rng):
     return lo, lo + rng.randint(12, 60)
 
 
+def gen_ctor(rng):
+    """constructor arguments of Melody / ChordProgression (None = all defaults)"""
+    if rng.random() < 0.5:
+        return None
+    return [rng.choice([0, 0, 1, 16, 37, 64]), rng.choice([16, 12, 24, 3]), rng.choice([4, 3, 6, 1])]
+
+
+def gen_key(rng):
+    r = rng.random()
+    return rng.choice([-13, -1, 12, 14, 23, 100]) if r < 0.1 else rng.randrange(12)
+
+
 def gen_ns_case(rng, p_bad=0.04):
     d = nsio.gen_desc(rng, max_notes=rng.choice([4, 10, 16]), p_drum=0.25)
+    if rng.random() < 0.15:
+        d['sub'] = [rng.randint(0, 8) * nsio.QUARTER_SEC, rng.randint(1, 8) * nsio.QUARTER_SEC]
     # pitches over the whole MIDI range, some at the range edges
     r = rng.random()
-    if r < 0.35:
+    if r < 0.2:
         lo, hi = 0, 127
+    elif r < 0.32:
+        lo, hi = rng.randint(1, 110), 127            # only min_allowed_pitch differs from its default
+    elif r < 0.44:
+        lo, hi = 0, rng.randint(10, 126)             # only max_allowed_pitch differs from its default
     elif r < 0.85:
         lo = rng.randint(0, 110)
         hi = lo + rng.randint(0, 40)
     else:
         lo, hi = rng.randint(-10, 140), rng.randint(-10, 140)    # may be empty
     k = rng.randint(-127, 127) if rng.random() < 0.4 else rng.randint(-14, 14)
+    extreme = rng.random() < 0.1
+    if extreme:
+        k = rng.choice([127, -127, 126, -126, 0, 1, -1, 128, -128])
     for n in d['notes']:
         r = rng.random()
-        if r < 0.45:
+        if extreme:
+            n[0] = rng.choice([0, 127, 1, 126, 0, 127])
+        elif r < 0.45:
             n[0] = min(127, max(0, rng.choice([lo - k - 1, lo - k, lo - k + 1, hi - k - 1, hi - k, hi - k + 1])))
         elif r < 0.7:
             n[0] = rng.randint(0, 127)
@@ -335,7 +362,7 @@ def gen_ns_case(rng, p_bad=0.04):
         texts.append(t)
     d['texts'] = texts
     return {'op': 'ns', 'input': {'desc': d, 'k': k, 'lo': lo, 'hi': hi, 'tc': int(rng.random() < 0.8),
-                                  'in_place': int(rng.random() < 0.3)}}
+                                  'in_place': int(rng.random() < 0.3), 'style': rng.choice([0, 1, 2])}}
 
 
 def corpus():
@@ -384,6 +411,36 @@ def corpus():
     # squash by +7 (C major melody squashed to G): chords C G must become G D
     out.append({'op': 'ls_s', 'input': {'lo': 48, 'hi': 84, 'key': 7, 'evs': [60, 62, 64, 65, 67, 69, 71, 72],
                                         'figs': [sym_of_figure(f) for f in ['C', 'G', 'C', 'G', 'D', 'D', 'A', 'E']]}})
+    # rare but legal shapes: no event list at all vs an empty one, one event, non-default constructor arguments,
+    # one-octave and default ranges, values at the ends of the MIDI range
+    for evs in (None, [], [0], [127], [-2], [60]):
+        for ctor in (None, [16, 12, 3]):
+            out.append({'op': 'mel', 'input': {'k': 1, 'lo': 0, 'hi': 128, 'evs': evs, 'ctor': ctor, 'style': 1}})
+            out.append({'op': 'mel', 'input': {'k': -1, 'lo': 0, 'hi': 12, 'evs': evs, 'ctor': ctor, 'style': 2}})
+            out.append({'op': 'squash', 'input': {'lo': 48, 'hi': 60, 'key': None, 'evs': evs, 'ctor': ctor, 'style': 1}})
+            out.append({'op': 'squash', 'input': {'lo': 0, 'hi': 128, 'key': 11, 'evs': evs, 'ctor': ctor, 'style': 0}})
+    out.append({'op': 'prog', 'input': {'k': 5, 'figs': [], 'ctor': [8, 12, 3]}})
+    out.append({'op': 'prog', 'input': {'k': 5, 'figs': ['N.C.'], 'ctor': None}})
+    out.append({'op': 'prog', 'input': {'k': 5, 'figs': [sym_of_figure('C'), sym_of_figure('F'), 'H'], 'ctor': None}})
+    empty = {'notes': [], 'tempos': [], 'tsigs': [], 'ksigs': [], 'texts': [], 'ccs': [], 'bends': [], 'sects': [],
+             'total': 0, 'qsteps': 0, 'spq': 0, 'sps': 0, 'sub': [0, 0], 'tpq': 220, 'meta': None}
+    one = copy.deepcopy(empty)
+    one['notes'] = [[0, 1, 0, 0, 0, 0, 0, 0, 0, 0], [127, 127, 0, 1 << 40, 0, 0, 0, 0, 0, 65536]]
+    one['total'] = 5 << 40
+    one['qinfo_empty'] = True
+    one['sub'] = [1 << 40, 2 << 40]
+    one['ksigs'] = [[0, 0, 0], [0, 11, 1]]
+    one['texts'] = [[0, 0, sym_of_figure('B#'), 1], [0, 0, sym_of_figure('Cb/Fb'), 1], [5 << 40, 0, 'H', 1]]
+    for dsc in (empty, one):
+        for k, lo, hi in [(0, 0, 127), (127, 0, 127), (-127, 0, 127), (1, 127, 127), (-1, 0, 0), (128, 0, 255)]:
+            for tc, ip, style in [(0, 0, 1), (0, 1, 2), (1, 0, 0), (1, 1, 1)]:
+                dd = copy.deepcopy(dsc)
+                if tc and ip:
+                    dd['texts'] = dd['texts'][:2]            # without the ungrammatical figure
+                out.append({'op': 'ns', 'input': {'desc': dd, 'k': k, 'lo': lo, 'hi': hi, 'tc': tc,
+                                                  'in_place': ip, 'style': style}})
+    out.append({'op': 'augment', 'input': {'desc': copy.deepcopy(empty), 'lo': 0, 'hi': 127, 'min_t': -3, 'max_t': 3,
+                                           'seed': 1, 'delete': 0, 'stretch': [1.0, 1.0], 'bad': None}})
     out.append({'op': 'clamp', 'input': [-5, 60, 72, 58, 80]})
     out.append({'op': 'clamp', 'input': [12, 60, 72, 58, 80]})
     out.append({'op': 'clamp', 'input': [0, 60, 72, 60, 72]})
@@ -434,11 +491,13 @@ def cases(rng, tier, n=None):
     for _ in range(120000 if thorough else 2000):
         lo, hi = gen_range(rng)
         k = rng.randint(-127, 127) if rng.random() < 0.4 else rng.randint(-14, 14)
-        out.append({'op': 'mel', 'input': {'k': k, 'lo': lo, 'hi': hi, 'evs': gen_events(rng)}})
+        out.append({'op': 'mel', 'input': {'k': k, 'lo': lo, 'hi': hi, 'evs': gen_events(rng), 'ctor': gen_ctor(rng),
+                                           'style': rng.choice([0, 1, 2])}})
     for _ in range(90000 if thorough else 1600):
         lo, hi = gen_range(rng)
-        key = None if rng.random() < 0.1 else rng.randrange(12)
-        out.append({'op': 'squash', 'input': {'lo': lo, 'hi': hi, 'key': key, 'evs': gen_events(rng)}})
+        key = None if rng.random() < 0.1 else gen_key(rng)
+        out.append({'op': 'squash', 'input': {'lo': lo, 'hi': hi, 'key': key, 'evs': gen_events(rng),
+                                              'ctor': gen_ctor(rng), 'style': rng.choice([0, 1, 2])}})
     # --- progressions and lead sheets
     for _ in range(25000 if thorough else 500):
         nn = rng.randint(0, 6)
@@ -447,7 +506,15 @@ def cases(rng, tier, n=None):
             figs = gen_chain(rng, k, rng.randint(2, 8))
         else:
             figs = [gen_text(rng, p_nc=0.25, p_bad=0.03) for _ in range(nn)]
-        out.append({'op': 'prog', 'input': {'k': k, 'figs': figs}})
+        out.append({'op': 'prog', 'input': {'k': k, 'figs': figs, 'ctor': gen_ctor(rng)}})
+    # --- the same figures under several k in one process, interleaved and repeated (no state between calls)
+    for _ in range(4000 if thorough else 120):
+        syms = [gen_sym(rng) for _ in range(rng.randint(1, 3))]
+        if rng.random() < 0.5:
+            syms.append(shifted_sym(rng, syms[0], rng.randint(-12, 12)))
+        ks = [rng.randint(-13, 13) for _ in range(rng.randint(2, 5))]
+        calls = [[rng.randrange(len(syms)), rng.choice(ks)] for _ in range(rng.randint(3, 9))]
+        out.append({'op': 'chord_multi', 'input': {'syms': syms, 'calls': calls}})
     for _ in range(25000 if thorough else 500):
         nn = rng.randint(0, 8)
         k = rng.randint(-30, 30) if rng.random() < 0.5 else rng.randint(-12, 12)
@@ -458,10 +525,10 @@ def cases(rng, tier, n=None):
             figs = [gen_text(rng, p_nc=0.25, p_bad=0.02) for _ in range(nn)]
         lo, hi = gen_range(rng)
         if rng.random() < 0.5:
-            out.append({'op': 'ls_t', 'input': {'k': k, 'lo': lo, 'hi': hi,
+            out.append({'op': 'ls_t', 'input': {'k': k, 'lo': lo, 'hi': hi, 'style': rng.choice([0, 1, 2]),
                                                 'evs': gen_events(rng, nn), 'figs': figs}})
         else:
-            out.append({'op': 'ls_s', 'input': {'lo': lo, 'hi': hi, 'key': rng.randrange(12),
+            out.append({'op': 'ls_s', 'input': {'lo': lo, 'hi': hi, 'key': gen_key(rng),
                                                 'evs': gen_events(rng, nn), 'figs': figs}})
     # --- clamp
     for _ in range(60000 if thorough else 1000):
@@ -481,8 +548,27 @@ def cases(rng, tier, n=None):
         for nt in c['desc']['notes']:
             nt[0] = rng.randint(lo, hi)
         mn = rng.randint(-30, 20)
-        out.append({'op': 'augment', 'input': {'desc': c['desc'], 'lo': lo, 'hi': hi, 'min_t': mn,
-                                               'max_t': mn + rng.randint(0, 20), 'seed': rng.randrange(10 ** 6)}})
+        r = rng.random()
+        if r < 0.15:
+            lo, hi = 0, 127                                  # defaults (left out of the call)
+        delete = int(rng.random() < 0.4)
+        if delete:
+            for nt in c['desc']['notes']:
+                if rng.random() < 0.5:
+                    nt[0] = rng.randint(0, 127)              # with deletion allowed the notes may start anywhere
+        a = {'desc': c['desc'], 'lo': lo, 'hi': hi, 'min_t': mn, 'max_t': mn + rng.randint(0, 20),
+             'seed': rng.randrange(10 ** 6), 'delete': delete,
+             'stretch': rng.choice([[1.0, 1.0], [1.0, 1.0], [0.5, 0.5], [2.0, 2.0], [0.5, 2.0], [0.9, 1.1]]),
+             'bad': None}
+        if rng.random() < 0.1:
+            a['bad'] = rng.choice(['stretch', 'pitch', 'transpose'])
+            if a['bad'] == 'stretch':
+                a['stretch'] = [1.5, 1.25]
+            elif a['bad'] == 'pitch':
+                a['lo'], a['hi'] = a['hi'] + 1, a['hi']
+            else:
+                a['min_t'] = a['max_t'] + 1
+        out.append({'op': 'augment', 'input': a})
     if n is not None:
         rng.shuffle(out)
         out = out[:n]
@@ -521,11 +607,84 @@ def _obs(fig):
     return [t(csl.chord_symbol_root), t(csl.chord_symbol_bass), t(csl.chord_symbol_pitches), t(csl.chord_symbol_quality)]
 
 
-def _melody(evs):
+def _ctor_kw(ctor):
+    return {} if not ctor else {'start_step': ctor[0], 'steps_per_bar': ctor[1], 'steps_per_quarter': ctor[2]}
+
+
+def _melody(evs, ctor=None, src=None):
+    """Melody over the events (None = constructed without an event list); `src` = the very list object to pass"""
     from note_seq import melodies_lib
-    m = melodies_lib.Melody(list(evs))
-    assert list(m) == list(evs)
+    m = melodies_lib.Melody((None if evs is None else list(evs)) if src is None else src, **_ctor_kw(ctor))
+    assert list(m) == list(evs or [])
     return m
+
+
+def _progression(figs, ctor=None, src=None):
+    from note_seq import chords_lib
+    return chords_lib.ChordProgression(list(figs) if src is None else src, **_ctor_kw(ctor))
+
+
+def _seq_attrs(m):
+    return [len(m), m.start_step, m.end_step, m.steps_per_bar, m.steps_per_quarter]
+
+
+def _mel_transpose(m, a, k=None):
+    """Melody.transpose / LeadSheet.transpose with the requested values: positional, by keyword, or (where a value
+    is the documented default 0 / 128) left out"""
+    k = a['k'] if k is None else k
+    style, lo, hi = a.get('style', 0), a['lo'], a['hi']
+    if style == 0:
+        return m.transpose(k, lo, hi)
+    if style == 2:
+        return m.transpose(transpose_amount=k, max_note=hi, min_note=lo)
+    kw = {}
+    if lo != 0:
+        kw['min_note'] = lo
+    if hi != 128:
+        kw['max_note'] = hi
+    return m.transpose(k, **kw)
+
+
+def _mel_squash(m, a):
+    style, lo, hi, key = a.get('style', 0), a['lo'], a['hi'], a['key']
+    if style == 2:
+        return m.squash(max_note=hi, min_note=lo, transpose_to_key=key)
+    if style == 1 and key is None:
+        return m.squash(lo, hi)
+    return m.squash(lo, hi, key)
+
+
+def _call_transpose_ns(ns, a, in_place=None):
+    """transpose_note_sequence with the requested values: positional, by keyword, or (where a value equals the
+    documented default 0 / 127 / True / False) left out"""
+    from note_seq import sequences_lib
+    ip = bool(a['in_place']) if in_place is None else in_place
+    style = a.get('style', 0)
+    if style == 0:
+        return sequences_lib.transpose_note_sequence(ns, a['k'], a['lo'], a['hi'], transpose_chords=bool(a['tc']),
+                                                     in_place=ip)
+    kw = {}
+    if style == 2 or a['lo'] != 0:
+        kw['min_allowed_pitch'] = a['lo']
+    if style == 2 or a['hi'] != 127:
+        kw['max_allowed_pitch'] = a['hi']
+    if style == 2 or not a['tc']:
+        kw['transpose_chords'] = bool(a['tc'])
+    if style == 2 or ip:
+        kw['in_place'] = ip
+    return sequences_lib.transpose_note_sequence(ns, a['k'], **kw)
+
+
+def _call_augment(ns, a):
+    from note_seq import sequences_lib
+    _random.seed(a['seed'])
+    kw = {}
+    if (a['lo'], a['hi']) != (0, 127):
+        kw.update(min_allowed_pitch=a['lo'], max_allowed_pitch=a['hi'])
+    if a.get('delete'):
+        kw['delete_out_of_range_notes'] = True
+    st = a.get('stretch', [1.0, 1.0])
+    return sequences_lib.augment_note_sequence(ns, st[0], st[1], a['min_t'], a['max_t'], **kw)
 
 
 def _ints(xs):
@@ -559,23 +718,26 @@ def impl(case):
         from note_seq import sequences_lib, chord_symbols_lib as csl
         ns = _proto(a['desc'])
         try:
-            out, deleted = sequences_lib.transpose_note_sequence(
-                ns, a['k'], a['lo'], a['hi'], transpose_chords=bool(a['tc']), in_place=bool(a['in_place']))
+            out, deleted = _call_transpose_ns(ns, a)
         except csl.ChordSymbolError as e:
             return _exc(e)
         return ['OK', _wire(out, int(sequences_lib.CHORD_SYMBOL), back_code), int(deleted)]
     if op == 'mel':
-        m = _melody(a['evs'])
-        m.transpose(a['k'], a['lo'], a['hi'])
+        m = _melody(a['evs'], a.get('ctor'))
+        _mel_transpose(m, a)
         return _ints(m)
     if op == 'squash':
-        m = _melody(a['evs'])
+        m = _melody(a['evs'], a.get('ctor'))
         key0 = int(m.get_major_key())
-        amt = m.squash(a['lo'], a['hi'], a['key'])
+        amt = _mel_squash(m, a)
         return [int(amt), _ints(m), key0]
+    if op == 'chord_multi':
+        from note_seq import chord_symbols_lib as csl
+        figs = [render(sy) for sy in a['syms']]
+        return ['OK', [csl.transpose_chord_symbol(figs[i], k) for i, k in a['calls']]]
     if op == 'prog':
         from note_seq import chords_lib, chord_symbols_lib as csl
-        p = chords_lib.ChordProgression([text_str(t) for t in a['figs']])
+        p = _progression([text_str(t) for t in a['figs']], a.get('ctor'))
         try:
             p.transpose(a['k'])
         except csl.ChordSymbolError as e:
@@ -586,7 +748,7 @@ def impl(case):
         ls = lead_sheets_lib.LeadSheet(_melody(a['evs']), chords_lib.ChordProgression([text_str(t) for t in a['figs']]))
         try:
             if op == 'ls_t':
-                ls.transpose(a['k'], a['lo'], a['hi'])
+                _mel_transpose(ls, a)
                 amt = []
             else:
                 amt = [int(ls.squash(a['lo'], a['hi'], a['key']))]
@@ -599,10 +761,12 @@ def impl(case):
     if op == 'augment':
         from note_seq import sequences_lib
         ns = _proto(a['desc'])
-        _random.seed(a['seed'])
-        out = sequences_lib.augment_note_sequence(ns, 1.0, 1.0, a['min_t'], a['max_t'], a['lo'], a['hi'],
-                                                  delete_out_of_range_notes=False)
-        return ['OK', [[n.pitch, int(n.is_drum)] for n in out.notes]]
+        before = ns.SerializeToString(deterministic=True)
+        try:
+            out = _call_augment(ns, a)
+        except ValueError as e:
+            return _exc(e) + [int(ns.SerializeToString(deterministic=True) == before)]
+        return ['OK', [[n.pitch, int(n.is_drum)] for n in out.notes], int(out is ns)]
     raise ValueError(op)
 
 
@@ -626,9 +790,9 @@ def model_input(case):
     if op == 'ns':
         return [3, _wire_in(a['desc']), a['k'], a['lo'], a['hi'], a['tc']]
     if op == 'mel':
-        return [4, a['k'], a['lo'], a['hi'], a['evs']]
+        return [4, a['k'], a['lo'], a['hi'], a['evs'] or []]
     if op == 'squash':
-        return [5, a['lo'], a['hi'], [] if a['key'] is None else [a['key']], a['evs']]
+        return [5, a['lo'], a['hi'], [] if a['key'] is None else [a['key']], a['evs'] or []]
     if op == 'prog':
         return [6, a['k'], [text_code(t) for t in a['figs']]]
     if op == 'ls_t':
@@ -745,6 +909,32 @@ def _mel_relation(before, after, k, lo, hi, where):
     return None
 
 
+def _seq_state_checks(events, ctor, make, call, expected, where):
+    """No state is shared between event sequences or with the caller's list: the list handed to the constructor and
+    a sibling object built from the same list stay as they were, the bookkeeping attributes (length, start/end step,
+    steps per bar/quarter) are untouched, and the same call on a fresh object gives the same events again."""
+    src = list(events)
+    m1 = make(events, ctor, src=src)
+    m2 = make(events, ctor, src=src)
+    attrs = _seq_attrs(m1)
+    try:
+        call(m1)
+    except Exception as e:  # the caller has already dealt with the rejection paths
+        return {'kind': 'second-identical-call-raised', 'where': where, 'exc': type(e).__name__}
+    if src != list(events):
+        return {'kind': 'callers-event-list-modified', 'where': where}
+    if list(m2) != list(events):
+        return {'kind': 'sibling-object-modified', 'where': where}
+    if _seq_attrs(m1) != attrs:
+        return {'kind': 'sequence-attributes-changed', 'where': where, 'before': attrs, 'after': _seq_attrs(m1)}
+    if list(m1) != list(expected):
+        return {'kind': 'same-call-different-result', 'where': where}
+    call(m2)
+    if list(m2) != list(expected):
+        return {'kind': 'same-call-different-result', 'where': where + ' (sibling, afterwards)'}
+    return None
+
+
 def _figs_relation(figs, outs, k, where):
     if len(figs) != len(outs):
         return {'kind': 'progression-length-changed', 'where': where}
@@ -784,52 +974,79 @@ def oracle(case, io):
     if op == 'ns':
         return _oracle_ns(a, io)
     if op == 'mel':
-        v = _mel_relation(a['evs'], io, a['k'], a['lo'], a['hi'], 'Melody.transpose')
+        evs0 = a['evs'] or []
+        v = _mel_relation(evs0, io, a['k'], a['lo'], a['hi'], 'Melody.transpose')
+        if v:
+            return v
+        v = _seq_state_checks(evs0, a.get('ctor'), _melody, lambda m: _mel_transpose(m, a), io, 'Melody.transpose')
         if v:
             return v
         if a['lo'] >= 0 and a['hi'] - a['lo'] >= 12:
             # k then -k, and 12, are the identity on pitch classes (and specials)
             for k2, nm in ((-a['k'], 'k-then-minus-k'), (12, 'plus-12')):
-                m = _melody(a['evs'])
+                m = _melody(evs0)
                 if nm == 'k-then-minus-k':
                     m.transpose(a['k'], a['lo'], a['hi'])
                 m.transpose(k2, a['lo'], a['hi'])
-                for b, e in zip(a['evs'], _ints(m)):
+                for b, e in zip(evs0, _ints(m)):
                     if (b < 0 and e != b) or (b >= 0 and (e < 0 or (e - b) % 12 != 0)):
                         return {'kind': 'melody-%s-not-identity-on-pitch-classes' % nm, 'event': b, 'got': e}
         return None
+    if op == 'chord_multi':
+        figs = [render(sy) for sy in a['syms']]
+        seen = {}
+        for (i, k), out in zip(a['calls'], io[1]):
+            v = _chord_relation(figs[i], out, k, 'transpose_chord_symbol (several calls in one process)')
+            if v:
+                return v
+            if seen.setdefault((figs[i], k), out) != out:
+                return {'kind': 'same-call-different-result', 'figure': figs[i], 'k': k, 'got': [seen[(figs[i], k)], out]}
+        return None
     if op == 'squash':
         amt, evs, key0 = io
-        if not any(0 <= e <= 127 for e in a['evs']) and a['key'] is not None:
-            return None if (amt == 0 and evs == a['evs']) else {'kind': 'squash-of-empty-melody-changed-it'}
+        evs0 = a['evs'] or []
+        v = _seq_state_checks(evs0, a.get('ctor'), _melody, lambda m: _mel_squash(m, a), evs, 'Melody.squash')
+        if v:
+            return v
+        if not any(0 <= e <= 127 for e in evs0) and a['key'] is not None:
+            return None if (amt == 0 and evs == evs0) else {'kind': 'squash-of-empty-melody-changed-it'}
         if a['key'] is not None and (amt - (a['key'] - key0)) % 12 != 0:
             return {'kind': 'squash-amount-not-congruent-to-key-difference', 'amount': amt, 'key': a['key'],
                     'melody_key': key0}
         if a['key'] is None and amt != 0:
             return {'kind': 'squash-without-key-transposed', 'amount': amt}
-        return _mel_relation(a['evs'], evs, amt, a['lo'], a['hi'], 'Melody.squash')
+        return _mel_relation(evs0, evs, amt, a['lo'], a['hi'], 'Melody.squash')
     if op == 'prog':
         figs = [text_str(t) for t in a['figs']]
         bad = any(isinstance(t, str) and t != 'N.C.' for t in a['figs'])
         if io[0] != 'OK':
-            return None if bad else {'kind': 'grammatical-progression-rejected', 'figs': figs}
+            if bad:      # exactly the documented class, also when the offending figure comes after valid ones
+                return None if io == ['EXC', 'ChordSymbolError'] else {'kind': 'wrong-exception-class', 'got': io}
+            return {'kind': 'grammatical-progression-rejected', 'figs': figs}
         if bad:
             return {'kind': 'ungrammatical-chord-not-rejected', 'figs': figs}
-        from note_seq import chords_lib
-        p = chords_lib.ChordProgression(figs)
+        p = _progression(figs, a.get('ctor'))
         p.transpose(a['k'])
-        return _figs_relation(figs, list(p), a['k'], 'ChordProgression.transpose')
+        v = _figs_relation(figs, list(p), a['k'], 'ChordProgression.transpose')
+        if v:
+            return v
+        if [back_code(f) for f in p] != io[1]:
+            return {'kind': 'same-call-different-result', 'where': 'ChordProgression.transpose'}
+        return _seq_state_checks(figs, a.get('ctor'), lambda e, c, src=None: _progression(e, c, src),
+                                 lambda q: q.transpose(a['k']), list(p), 'ChordProgression.transpose')
     if op in ('ls_t', 'ls_s'):
         figs = [text_str(t) for t in a['figs']]
         bad = any(isinstance(t, str) and t != 'N.C.' for t in a['figs'])
         if io[0] != 'OK':
-            return None if bad else {'kind': 'grammatical-progression-rejected', 'figs': figs}
+            if bad:
+                return None if io == ['EXC', 'ChordSymbolError'] else {'kind': 'wrong-exception-class', 'got': io}
+            return {'kind': 'grammatical-progression-rejected', 'figs': figs}
         if bad:
             return {'kind': 'ungrammatical-chord-not-rejected', 'figs': figs}
         from note_seq import chords_lib, lead_sheets_lib
         ls = lead_sheets_lib.LeadSheet(_melody(a['evs']), chords_lib.ChordProgression(figs))
         if op == 'ls_t':
-            ls.transpose(a['k'], a['lo'], a['hi'])
+            _mel_transpose(ls, a)
             k = a['k']
         else:
             k = int(ls.squash(a['lo'], a['hi'], a['key']))
@@ -851,8 +1068,29 @@ def oracle(case, io):
                 return {'kind': 'clamped-amount-not-the-nearest-safe', 'args': a, 'got': io}
         return None
     if op == 'augment':
+        if a.get('bad'):
+            # documented ValueError when a minimum exceeds its maximum; the sequence is left alone
+            if io[:2] != ['EXC', 'ValueError']:
+                return {'kind': 'augment-inverted-interval-not-rejected', 'which': a['bad'], 'got': io[:2]}
+            return None if io[2] else {'kind': 'argument-modified-on-error-path', 'where': 'augment_note_sequence'}
+        if io[0] != 'OK':
+            return {'kind': 'augment-rejected-legal-arguments', 'got': io}
+        if not io[2]:
+            return {'kind': 'augment-did-not-return-its-argument'}
         ins = [[n[0], n[6]] for n in a['desc']['notes']]
         outs = io[1]
+        if not ins:
+            return None if outs == [] else {'kind': 'augment-invented-notes'}
+        lo, hi = a['lo'], a['hi']
+        if a.get('delete'):
+            # some amount in the requested interval explains the result: pitched notes shifted by it, exactly the
+            # ones leaving [lo, hi] deleted, drums untouched, order kept
+            for amt in range(a['min_t'], a['max_t'] + 1):
+                want = [[p, 1] if dr else [p + amt, 0] for p, dr in ins if dr or lo <= p + amt <= hi]
+                if want == outs:
+                    return None
+            return {'kind': 'augment-with-deletion-not-a-transposition-in-the-interval', 'in': ins[:6], 'out': outs[:6],
+                    'interval': [a['min_t'], a['max_t']], 'range': [lo, hi]}
         if len(outs) != len(ins):
             return {'kind': 'augment-without-deletion-deleted-notes', 'in': len(ins), 'out': len(outs)}
         shifts = set(o[0] - i[0] for i, o in zip(ins, outs) if not i[1])
@@ -861,7 +1099,7 @@ def oracle(case, io):
         if any(o[0] != i[0] for i, o in zip(ins, outs) if i[1]):
             return {'kind': 'augment-moved-a-drum'}
         for i, o in zip(ins, outs):
-            if not i[1] and not (a['lo'] <= o[0] <= a['hi']):
+            if not i[1] and not (lo <= o[0] <= hi):
                 return {'kind': 'augment-left-range', 'pitch': o[0]}
         for sft in shifts:
             if not (min(a['min_t'], 0) <= sft <= max(a['max_t'], 0)):
@@ -877,8 +1115,11 @@ def _oracle_ns(a, io):
     before = ns_in.SerializeToString(deterministic=True)
     chord_texts = [t[2] for t in d['texts'] if t[3] == 1]
     bad = any(isinstance(t, str) and t != 'N.C.' for t in chord_texts)
+    if bad and tc and io != ['EXC', 'ChordSymbolError']:
+        return {'kind': 'ungrammatical-chord-not-rejected' if io[0] == 'OK' else 'wrong-exception-class', 'k': k,
+                'got': io[:2] if io[0] != 'OK' else 'OK'}
     try:
-        out, deleted = sequences_lib.transpose_note_sequence(ns_in, k, lo, hi, transpose_chords=tc, in_place=False)
+        out, deleted = _call_transpose_ns(ns_in, a, in_place=False)
     except csl.ChordSymbolError:
         if ns_in.SerializeToString(deterministic=True) != before:
             return {'kind': 'argument-modified-on-error-path'}
@@ -887,6 +1128,11 @@ def _oracle_ns(a, io):
         return {'kind': 'argument-modified'}
     if bad and tc:
         return {'kind': 'ungrammatical-chord-not-rejected', 'k': k}
+    if out is ns_in:
+        return {'kind': 'copy-requested-but-argument-returned'}
+    # the same call again (this is the second one in this process) gives the same result
+    if io != ['OK', _wire(out, int(sequences_lib.CHORD_SYMBOL), back_code), int(deleted)]:
+        return {'kind': 'same-call-different-result', 'where': 'transpose_note_sequence', 'k': k}
     ns0 = _proto(d)
 
     def row(n, pitch=None, keep_name=True):
@@ -942,6 +1188,47 @@ def _oracle_ns(a, io):
     ends = [n.end_time for n in out.notes]
     if out.total_time != max([0.0] + ends):
         return {'kind': 'total-time-not-max-kept-end', 'got': out.total_time, 'want': max([0.0] + ends)}
+    # everything transposition has no business with is byte-identical (incl. presence of empty sub-messages)
+
+    def others(x):
+        c = type(x)()
+        c.CopyFrom(x)
+        for f in ('notes', 'total_time', 'text_annotations', 'key_signatures'):
+            c.ClearField(f)
+        return c.SerializeToString(deterministic=True)
+    if others(out) != others(ns0):
+        return {'kind': 'unrelated-field-changed', 'field': 'some other field or the presence of a sub-message'}
+    # in_place=True edits and returns the argument itself, with the same content
+    if a['in_place']:
+        nsx = _proto(d)
+        outx, delx = _call_transpose_ns(nsx, a, in_place=True)
+        if outx is not nsx:
+            return {'kind': 'in-place-requested-but-copy-returned'}
+        if nsx.SerializeToString(deterministic=True) != out.SerializeToString(deterministic=True) or delx != deleted:
+            return {'kind': 'in-place-result-differs-from-copy-result'}
+    # two-step use: the output transposed back by -k (nothing can be deleted in an unbounded range)
+    if deleted == 0:
+        back, del2 = sequences_lib.transpose_note_sequence(out, -k, -10 ** 6, 10 ** 6, transpose_chords=tc)
+        if del2 != 0 or [(n.pitch, n.is_drum) for n in back.notes] != [(n.pitch, n.is_drum) for n in ns0.notes]:
+            return {'kind': 'k-then-minus-k-does-not-restore-the-pitches', 'k': k}
+        if [ks.key for ks in back.key_signatures] != [ks.key for ks in ns0.key_signatures]:
+            return {'kind': 'k-then-minus-k-does-not-restore-the-keys', 'k': k}
+        if tc:
+            for tb, ti in zip(back.text_annotations, ns0.text_annotations):
+                if ti.annotation_type == sequences_lib.CHORD_SYMBOL and ti.text != constants.NO_CHORD:
+                    v = _chord_relation(ti.text, tb.text, 0, 'transpose_note_sequence k then -k')
+                    if v:
+                        return v
+    # the result is a real copy: editing it afterwards does not reach the argument
+    snapshot = out.SerializeToString(deterministic=True)
+    for n in out.notes:
+        n.pitch = (n.pitch + 1) % 128
+    out.total_time += 1.0
+    del out.text_annotations[:]
+    del out.key_signatures[:]
+    if ns_in.SerializeToString(deterministic=True) != before:
+        return {'kind': 'result-shares-storage-with-argument'}
+    del snapshot
     return None
 
 
@@ -955,8 +1242,10 @@ def nontrivial(case, io):
         return True
     if op == 'ns':
         return io[0] != 'OK' or io[2] > 0 or any(n[6] for n in a['desc']['notes']) or bool(a['desc']['ksigs'])
+    if op == 'chord_multi':
+        return len(set(k % 12 for _, k in a['calls'])) > 1
     if op == 'mel':
-        return any(e >= 0 and e != b + a['k'] for b, e in zip(a['evs'], io))
+        return any(e >= 0 and e != b + a['k'] for b, e in zip(a['evs'] or [], io))
     if op == 'squash':
         return io[0] != 0
     if op in ('prog', 'ls_t', 'ls_s'):
@@ -964,7 +1253,7 @@ def nontrivial(case, io):
     if op == 'clamp':
         return io != a[0]
     if op == 'augment':
-        return bool(a['desc']['notes'])
+        return bool(a['desc']['notes']) or bool(a.get('bad'))
     return False
 
 
@@ -976,7 +1265,7 @@ def shrink(case):
             c['input']['desc'] = d
             yield c
     elif op in ('mel', 'squash'):
-        for i in range(len(a['evs'])):
+        for i in range(len(a['evs'] or [])):
             c = copy.deepcopy(case)
             del c['input']['evs'][i]
             if not c['input']['evs'] or c['input']['evs'][0] != -1:
